@@ -21,7 +21,8 @@ REPO = os.environ.get("VERIF_REPO", "/repo")
 COQ = os.path.join(VERIF, "coq")
 HARNESS = os.path.join(VERIF, "harness")
 BUILD = os.path.join(VERIF, "build")
-BIN = os.path.join(BUILD, "bin")
+# a non-default VERIF_REPO (scratch copy used for mutant runs) gets its own binaries
+BIN = os.path.join(BUILD, "bin" if REPO == "/repo" else "bin-" + hashlib.sha256(REPO.encode()).hexdigest()[:8])
 EVIDENCE = os.path.join(VERIF, "evidence")
 REPLAYS = os.path.join(VERIF, "replays")
 NPROC = os.cpu_count() or 4
@@ -89,10 +90,23 @@ def write_if_changed(path, text):
 
 # ----------------------------------------------------------------------------- Coq
 
+def coq_project():
+    """_CoqProject is generated from the fragments coq/proj/*.list (one .v path per line)."""
+    d = os.path.join(COQ, "proj")
+    files = []
+    for fn in sorted(os.listdir(d)):
+        if fn.endswith(".list"):
+            for line in open(os.path.join(d, fn)):
+                line = line.strip()
+                if line and not line.startswith("#") and line not in files:
+                    files.append(line)
+    return write_if_changed(os.path.join(COQ, "_CoqProject"), "-Q . Verif\n" + "\n".join(files) + "\n")
+
+
 def coq_makefile():
+    changed = coq_project()
     mk = os.path.join(COQ, "Makefile")
-    cp = os.path.join(COQ, "_CoqProject")
-    if not os.path.exists(mk) or os.path.getmtime(mk) < os.path.getmtime(cp):
+    if changed or not os.path.exists(mk):
         sh("coq_makefile -f _CoqProject -o Makefile", cwd=COQ, check=True)
 
 
@@ -193,10 +207,17 @@ def build_thriftgo(timeout=900):
 # ----------------------------------------------------------------------------- findings / evidence
 
 def load_known():
+    """known_findings.json plus known_findings.d/*.json (each a JSON list of entries)."""
+    out = []
     p = os.path.join(VERIF, "known_findings.json")
-    if not os.path.exists(p):
-        return []
-    return json.load(open(p))
+    if os.path.exists(p):
+        out += json.load(open(p))
+    d = os.path.join(VERIF, "known_findings.d")
+    if os.path.isdir(d):
+        for fn in sorted(os.listdir(d)):
+            if fn.endswith(".json"):
+                out += json.load(open(os.path.join(d, fn)))
+    return out
 
 
 def scratch(prop):
